@@ -371,8 +371,179 @@ def directed_cases():
     return out
 
 
+def hit_of(kind, base=None, k=0):
+    """a hit of a given orientation: 'minus', 'plus', 'nodir_q' (qstart = qend), 'nodir_s' (sstart = send)"""
+    h = dict(base or {'q': 'q1', 's': 's1', 'ev': '1e-5', 'bs': '50', 'pid': '99.0', 'fid': '0.99', 'len': 10, 'mis': 0, 'gap': 0,
+                      'seed': 1, 'desc': 'a b'})
+    h['seed'] = k
+    if kind == 'minus':
+        h.update(ss=200 + k, se=100 + k, qs=5, qe=60)
+    elif kind == 'plus':
+        h.update(ss=100 + k, se=200 + k, qs=5, qe=60)
+    elif kind == 'nodir_q':
+        h.update(ss=300 + k, se=250 + k, qs=7, qe=7)
+    else:
+        h.update(ss=400 + k, se=400 + k, qs=5, qe=60)
+    return h
+
+
+ORDERS = [['nodir_q'], ['nodir_s'], ['minus', 'nodir_q'], ['plus', 'nodir_q'], ['nodir_q', 'minus'], ['nodir_q', 'plus'],
+          ['minus', 'nodir_s'], ['plus', 'nodir_s'], ['minus', 'plus', 'nodir_q'], ['plus', 'minus', 'nodir_q'],
+          ['minus', 'nodir_q', 'plus'], ['plus', 'nodir_q', 'minus'], ['nodir_q', 'minus', 'plus'], ['nodir_q', 'plus', 'minus'],
+          ['minus', 'nodir_q', 'nodir_s', 'plus', 'nodir_q', 'minus']]
+
+
+def order_cases():
+    """hit order inside one file permuted: a hit without direction first, after a minus hit, after a plus hit (no value of
+    the previous row may leak into it), in every rendering; with and without a strand column"""
+    out = []
+    for d, style, colmode in RENDERINGS:
+        for order in ORDERS:
+            for strandcol in (False, True):
+                if d == 'mmseqs' and strandcol:
+                    continue
+                if d == 'infernal' and not strandcol:
+                    continue
+                hits = []
+                for k, kind in enumerate(order):
+                    h = hit_of(kind, k=k)
+                    h['sstr'] = 'sign' if not kind.startswith('nodir') else ['.', '+', '-', 'plus', '?'][k % 5]
+                    if d == 'infernal' and h['sstr'] == 'plus':
+                        h['sstr'] = '+'
+                    hits.append(h)
+                c = {'_d': d, '_style': style, '_colmode': colmode, 'hits': hits, '_via': 'stringio'}
+                if d == 'blast' and strandcol:
+                    c['cols'] = 'qseqid sseqid qstart qend sstart send sstrand evalue bitscore'.split()
+                    c['_colmode'] = 'header' if style == '7' else 'outfmt'
+                out.append(c)
+    return out
+
+
+def as_raw(case, **over):
+    """the same text with explicit options"""
+    content, kw = render(case)
+    r = {'_d': case['_d'], 'content': content, 'sep': kw.get('sep', '\t'), 'outfmt': kw.get('outfmt'), 'ftype': kw.get('ftype'),
+         '_via': case.get('_via', 'stringio')}
+    r.update(over)
+    return r
+
+
+SHARED_NAMES = ['qstart', 'qend', 'evalue', 'pident', 'mismatch', 'gapopen', 'nident', 'ppos', 'qlen', 'qseq', 'qframe']
+
+
+def gen_hist(rng, n):
+    """state-independence stream: several reads in one process (DESIGN/independence: a, b, c, d, f)"""
+    out = []
+    for i in range(n):
+        kind = ['twice', 'options', 'dialects', 'mixed', 'comments', 'vandal', 'orders', 'shared_names', 'foreign_names', 'after_error'][i % 10]
+        steps = []
+        if kind == 'twice':                     # (a) the same text twice, once more through the other transport
+            c = rand_case(rng)
+            steps = [c, dict(c), dict(c, _via='file' if c['_via'] == 'stringio' else 'stringio')]
+        elif kind == 'options':                 # (b) same text, different column selections / ftype, both orders
+            c = rand_case(rng)
+            while c['_d'] == 'infernal':
+                c = rand_case(rng)
+            cols = list(case_cols(c))
+            perm = cols[:]
+            rng.shuffle(perm)
+            rot = cols[1:] + cols[:1]
+            c0 = dict(c, _colmode='outfmt' if c['_style'] not in ('7', '4') else 'header+outfmt', cols=cols)
+            r0 = as_raw(c0)
+            variants = [r0, dict(r0, outfmt=' '.join(perm)), dict(r0, outfmt=' '.join(rot)), dict(r0, ftype=cols[0]),
+                        dict(r0, ftype='hit'), dict(r0, outfmt=None), r0]
+            rng.shuffle(variants)
+            steps = variants[:5] + [r0]
+        elif kind == 'dialects':                # (b/f) the same default-column text read as BLAST and as MMseqs2, alternating
+            c = rand_case(rng)
+            c = {'_d': 'blast', '_style': '6', '_colmode': 'default', 'hits': c['hits'], '_via': 'stringio'}
+            rb = as_raw(c)
+            rm = dict(rb, _d='mmseqs')
+            steps = [rb, rm, rb, rm] if i % 2 else [rm, rb, rm, rb]
+        elif kind == 'mixed':                   # (f) files of different dialects / column sets in varying order, one repeated
+            cs = [rand_case(rng) for _ in range(rng.choice([3, 4, 5]))]
+            steps = cs + [dict(rng.choice(cs))]
+            rng.shuffle(steps)
+        elif kind == 'comments':                # comments= with header lines; one list handed to several reads
+            cs = []
+            for d, style, colmode in rng.sample(RENDERINGS, 3):
+                c = rand_case(rng)
+                c = {'_d': d, '_style': style, '_colmode': colmode, 'hits': [h for h in c['hits'] if has_dir(h)][:3] or [hit_of('minus')],
+                     '_via': rng.choice(['file', 'stringio'])}
+                for h in c['hits']:
+                    h['sstr'] = 'consistent'
+                cs.append(c)
+            steps = [dict(cs[0], comments='new'), dict(cs[1], comments='shared'), dict(cs[0]), dict(cs[2], comments='shared'),
+                     dict(cs[0], comments='new'), dict(cs[1])]
+        elif kind == 'vandal':                  # (c/d) everything a read returned is edited, then the same and other reads
+            c = rand_case(rng)
+            c2 = rand_case(rng)
+            steps = [dict(c, vandal=True), dict(c), dict(c2, vandal=True, comments='new'), dict(c), dict(c2, comments='new')]
+        elif kind == 'orders':                  # permuted hit order inside a file, the same hits in two orders
+            oc = order_cases()
+            a = rng.choice(oc)
+            b = dict(a, hits=list(reversed(a['hits'])))
+            steps = [a, b, a]
+        elif kind == 'after_error':             # a read that raises half way must leave nothing behind for the next reads
+            v = rng.choice(['1', '2', '3', '2old'])
+            bad = hit_of('minus', k=3)
+            bad['sstr'] = 'contradict'
+            ci_bad = {'_d': 'infernal', '_style': v, '_colmode': 'default', 'hits': [hit_of('plus'), bad, hit_of('minus', k=5)],
+                      '_via': rng.choice(['file', 'stringio'])}
+            ci_ok = dict(ci_bad, hits=[hit_of('plus'), hit_of('minus', k=5)])
+            cbs = {'_d': 'blast', '_style': rng.choice(['6', '7']), 'hits': [rand_hit(rng), rand_hit(rng)], 'sepnone': True, '_via': 'stringio'}
+            cbs['_colmode'] = 'header' if cbs['_style'] == '7' else 'default'
+            cms = {'_d': 'mmseqs', '_style': rng.choice(['0', '4']), 'hits': [rand_hit(rng)], 'sepnone': True, '_via': 'stringio'}
+            cms['_colmode'] = 'header' if cms['_style'] == '4' else 'default'
+            cb_bad = {'_d': 'blast', '_style': '6', '_colmode': 'outfmt', 'cols': 'qseqid sseqid qstart qend sstart send sstrand'.split(),
+                      'hits': [dict(hit_of('plus'), sstr='sign'), dict(bad)], '_via': 'stringio'}
+            allb = [c for c in BL if c != 'sstrand']
+            rng.shuffle(allb)
+            wide = {'_d': 'blast', '_style': rng.choice(['6', '7']), 'cols': allb, 'hits': [rand_hit(rng)], 'sepnone': i % 4 < 2,
+                    '_via': 'stringio'}                      # more columns than any Infernal table has
+            wide['_colmode'] = 'header' if wide['_style'] == '7' else 'outfmt'
+            allm = list(MM)
+            rng.shuffle(allm)
+            widem = {'_d': 'mmseqs', '_style': '4', '_colmode': 'header', 'cols': allm, 'hits': [rand_hit(rng)], 'sepnone': i % 4 >= 2,
+                     '_via': 'stringio'}
+            steps = [cbs, ci_bad, wide, cbs, cms, ci_ok, cb_bad, cms, ci_bad, widem, ci_ok]
+            if i % 2:
+                steps = [ci_ok, cb_bad, ci_bad, widem, cms, cbs, ci_bad, wide, cbs]
+        elif kind == 'foreign_names':           # (f) a column list one dialect resolved, then handed to another dialect
+            v = rng.choice(['1', '2', '3', '2old'])
+            ci = {'_d': 'infernal', '_style': v, '_colmode': 'default', 'hits': [hit_of('minus'), hit_of('plus', k=1)], '_via': 'stringio'}
+            cb = {'_d': 'blast', '_style': rng.choice(['6', '7']), '_colmode': 'default', 'hits': [rand_hit(rng)], '_via': 'stringio'}
+            cb['_colmode'] = 'header' if cb['_style'] == '7' else 'default'
+            cm4 = {'_d': 'mmseqs', '_style': '4', '_colmode': 'header', 'hits': [rand_hit(rng)], '_via': 'stringio'}
+            rb = as_raw(dict(cb, _style='6', _colmode='default'))
+            steps = [ci, dict(rb, outfmt=' '.join(DEFAULT[v])),            # Infernal's list is not a BLAST outfmt
+                     cm4, dict(rb, outfmt=' '.join(DEFAULT['mmseqs'])),    # nor is MMseqs2's
+                     cb, dict(as_raw(dict(cm4, _style='0', _colmode='default')), outfmt=' '.join(DEFAULT['blast'])),
+                     dict(as_raw(ci), _d='blast', sep=None), ci]
+            if i % 2:
+                steps = steps[2:6] + steps[0:2] + steps[6:]
+        else:                                   # column names shared by BLAST and MMseqs2 (qframe: int vs str) with one outfmt text
+            names = rng.sample(SHARED_NAMES, rng.choice([2, 4, 6]))
+            if 'qframe' not in names and rng.random() < 0.7:
+                names.append('qframe')
+            cb = {'_d': 'blast', '_style': '6', '_colmode': 'outfmt', 'hits': [rand_hit(rng)],
+                  'cols': ['sstart', 'send'] + names, '_via': 'stringio'}
+            for nme in ('qstart', 'qend'):
+                if nme not in cb['cols']:
+                    cb['cols'].append(nme)
+            rb = as_raw(cb)
+            # MMseqs2 calls the subject coordinates tstart/tend: same rows, its own names for those two columns
+            rm = dict(rb, _d='mmseqs', outfmt=rb['outfmt'].replace('sstart', 'tstart').replace('send', 'tend'))
+            # ... and the very same outfmt text handed to the other dialect (unknown names there: ValueError)
+            steps = ([rb, dict(rb, _d='mmseqs'), rm, dict(rm, _d='blast'), rb] if i % 2 else
+                     [rm, dict(rm, _d='blast'), rb, dict(rb, _d='mmseqs'), rm])
+        out.append({'hist': steps, '_kind': kind})
+    return out
+
+
 def gen_cases(rng, tier):
-    cases = directed_cases()
+    cases = directed_cases() + order_cases()
+    cases += gen_hist(rng, 3000 if tier == 'thorough' else 300)
     n = 22000 if tier == 'thorough' else 900
     for _ in range(n):
         c = rand_case(rng)
@@ -398,13 +569,14 @@ def canon_v(v):
     return ['other', repr(v)]
 
 
-def impl(case):
+def impl_step(case, shared=None):
+    """one read; -> (canonical result, the FeatureList, the comments list or None)"""
     from sugar import read_fts
     content, kw = render(case)
     d = case['_d']
     cm = None
     if case.get('comments'):
-        cm = kw['comments'] = []
+        cm = kw['comments'] = shared if (case['comments'] == 'shared' and shared is not None) else []
     if case.get('_via') == 'file' and all(ord(c) < 128 for c in content):
         fd, path = tempfile.mkstemp(prefix='C11-', suffix='.txt', dir='/tmp')
         try:
@@ -426,7 +598,43 @@ def impl(case):
         out.append([loc.start, loc.stop, str(loc.strand), common, sorted([k, canon_v(v)] for k, v in fm.items())])
     if cm is not None:
         assert all(type(x) is str for x in cm)
-        return {'fts': out, 'comments': cm}
+        return {'fts': out, 'comments': list(cm)}, fts, cm
+    return out, fts, cm
+
+
+def vandalise(fts, d, cm):
+    """edit everything a read returned (a later read must not see any of it)"""
+    from sugar.core.fts import Location
+    for ft in fts:
+        fm = ft.meta['_' + d]
+        for k in list(fm):
+            fm[k] = 'VANDAL'
+        fm['extra'] = 1
+        for k in ('seqid', 'name', 'evalue', 'score', 'type'):
+            ft.meta[k] = 'VANDAL'
+        ft.locs = [Location(0, 1, '?')]
+    del fts.data[:]
+    if cm is not None:
+        cm.append('# VANDAL\n')
+
+
+def impl(case):
+    if 'hist' not in case:
+        return impl_step(case)[0]
+    from framework import canon_exc
+    out, shared = [], None
+    for st in case['hist']:
+        try:
+            r, fts, cm = impl_step(st, shared)
+        except Exception as e:
+            out.append(canon_exc(e))
+            shared = None              # the list may hold the lines visited before the error: start a new one
+            continue
+        if cm is not None:
+            shared = cm
+        out.append(r)
+        if st.get('vandal'):
+            vandalise(fts, st['_d'], cm if st.get('comments') != 'shared' else None)
     return out
 
 
@@ -435,12 +643,17 @@ def univ(case):
     return case.get('_via') == 'file' and all(ord(c) < 128 for c in content)
 
 
-def model_term(case):
+def model_args(case):
     content, kw = render(case)
     sep = kw.get('sep', '\t')
-    return 'out (run_C11 %s %s %s %s %s %s)' % (
-        coq_N(DN[case['_d']]), coq_opt(sep, lambda c: 'x%02x' % ord(c)), coq_opt(kw.get('outfmt'), coq_bs),
-        coq_opt(kw.get('ftype'), coq_bs), coq_bool(univ(case)), coq_bs(content))
+    return (coq_N(DN[case['_d']]), coq_opt(sep, lambda c: 'x%02x' % ord(c)), coq_opt(kw.get('outfmt'), coq_bs),
+            coq_opt(kw.get('ftype'), coq_bs), coq_bool(univ(case)), coq_bs(content))
+
+
+def model_term(case):
+    if 'hist' in case:
+        return 'out (run_C11_hist [%s])' % '; '.join('(%s, %s, %s, %s, %s, %s)' % model_args(st) for st in case['hist'])
+    return 'out (run_C11 %s %s %s %s %s %s)' % model_args(case)
 
 
 def flit(v):
@@ -473,13 +686,31 @@ def mval(v):
     return v
 
 
-def split_model(case, m):
-    wf, r, cm = m
+def model_step(case, r, cm):
     if isinstance(r, list):
         r = [[f[0], f[1], f[2], sorted([k, mval(v)] for k, v in f[3]), sorted([k, mval(v)] for k, v in f[4])] for f in r]
         if case.get('comments'):
             r = {'fts': r, 'comments': cm}
-    return bool(wf), r
+    return r
+
+
+def split_model(case, m):
+    wf, r, cm = m
+    if 'hist' not in case:
+        return bool(wf), model_step(case, r, cm)
+    out, acc = [], None
+    for st, ri, ci in zip(case['hist'], r, cm):
+        # a comments list handed to several reads accumulates; a failing read has still appended the lines it visited,
+        # which the model does not track: such histories are generated without shared lists after an error
+        if st.get('comments') == 'shared' and acc is not None:
+            ci = acc + ci
+        x = model_step(st, ri, ci)
+        if st.get('comments') and isinstance(ri, list):
+            acc = list(ci)
+        if not isinstance(ri, list):
+            acc = None
+        out.append(x)
+    return bool(wf), out
 
 
 def is_err(got):
@@ -535,7 +766,7 @@ def expect_hit(case, h):
     return [lo, hi, strand, common, fmt]
 
 
-def spec(case, got):
+def spec_step(case, got):
     if 'content' in case:
         return None                      # raw cases are decided by the model comparison only
     if isinstance(got, dict) and 'fts' in got:
@@ -591,7 +822,7 @@ def orient_key(h):
     return s(h['se'] - h['ss']) + s(h['qe'] - h['qs'])
 
 
-def nontrivial(case, got):
+def nontrivial_step(case, got):
     if 'content' in case:
         return ['raw', case['_d'], got['e'] if is_err(got) else 'ok']
     os_ = sorted(set(orient_key(h) + ':' + str(h.get('sstr')) for h in case['hits']))
@@ -601,7 +832,7 @@ def nontrivial(case, got):
     return mk
 
 
-def histkey(case, got):
+def histkey_step(case, got):
     ks = ['dialect=' + case['_d'], 'result=' + (got['e'] if is_err(got) else 'ok')]
     if 'content' in case:
         ks.append('kind=raw')
@@ -612,10 +843,66 @@ def histkey(case, got):
     return ks
 
 
-def python_snippet(case):
+def python_snippet_step(case):
     content, kw = render(case)
     return ('import io; from sugar import read_fts\nfts = read_fts(io.StringIO(%r), %r, **%r)\n'
             'for ft in fts: print(ft.loc.start, ft.loc.stop, ft.loc.strand, dict(ft.meta))' % (content, case['_d'], kw))
+
+
+def same_read(a, b):
+    ka = {k: v for k, v in a.items() if k not in ('vandal', 'comments')}
+    kb = {k: v for k, v in b.items() if k not in ('vandal', 'comments')}
+    return ka == kb
+
+
+def fts_of(r):
+    return r['fts'] if isinstance(r, dict) and 'fts' in r else r
+
+
+def spec(case, got):
+    if 'hist' not in case:
+        return spec_step(case, got)
+    steps = case['hist']
+    if not isinstance(got, list) or len(got) != len(steps):
+        return 'history: expected %d step results' % len(steps)
+    acc = None
+    for i, (st, g) in enumerate(zip(steps, got)):
+        gg = g
+        if st.get('comments') == 'shared' and acc is not None and isinstance(g, dict) and 'comments' in g:
+            # a shared comments list accumulates: this read appended its own '#' lines after the earlier ones
+            if g['comments'][:len(acc)] != acc:
+                return 'step %d: shared comments list lost earlier lines' % i
+            gg = {'fts': g['fts'], 'comments': g['comments'][len(acc):]}
+        r = spec_step(st, gg)
+        if r:
+            return 'step %d: %s' % (i, r)
+        if isinstance(g, dict) and 'comments' in g:
+            acc = list(g['comments'])
+        if is_err(g):
+            acc = None
+        # the same read earlier in the history must have given the same features (state independence)
+        for j in range(i):
+            if same_read(steps[j], st) and fts_of(got[j]) != fts_of(g):
+                return 'step %d repeats step %d but reads differently' % (i, j)
+    return None
+
+
+def nontrivial(case, got):
+    if 'hist' not in case:
+        return nontrivial_step(case, got)
+    return ['hist', case.get('_kind'), [nontrivial_step(st, g) for st, g in zip(case['hist'], got)]]
+
+
+def histkey(case, got):
+    if 'hist' not in case:
+        return histkey_step(case, got)
+    return ['kind=history', 'history=' + str(case.get('_kind')), 'history_steps=%d' % len(case['hist'])]
+
+
+def python_snippet(case):
+    if 'hist' not in case:
+        return python_snippet_step(case)
+    return '\n'.join('# step %d\n%s' % (i, python_snippet_step(st)) for i, st in enumerate(case['hist']))
 
 
 # ----------------------------------------------------------------------------- relational check: dialect independence
